@@ -217,4 +217,19 @@ PROPS = {
         "assumptions": ["'impossible announced length' includes lengths below 4 (DESIGN.md section 8, reading of the statements)"],
         "timeout": {"quick": 900, "thorough": 7200},
     },
+    "C03": {
+        "level_text": "Lean theorems: whenever encode_length answers, the length is within 4..limit, the size byte announces exactly it, fits a byte, and (compressed) the length is a multiple of 4; any other length is refused (the model's panic outcome), never given a wrapped size byte; for EVERY one of the 73 regenerated layouts and EVERY value the writer accepts — in-domain or not — size byte + type byte + body is a multiple of 4 (static size table re-checked by decide +kernel on every run: fixed parts 2 mod 4, vector elements 0 mod 4 or 2 mod 4 with a 2-byte spare after odd counts, aligned variable texts, MSO), so alignment holds in uncompressed mode too, where the encoder has no guard; hence every successfully encoded frame is a ValidFrame with length % 4 = 0; element counts cannot wrap inside an accepted frame (elements are at least 4 bytes); decoding an in-domain packet's frame consumes it completely and returns the same kind and value (C01.frame_roundtrip). Tied by correspondence (every length 0..1300/5000 through the real encode_length; round trips of decoded packets incl. wild values and LFS-style padded frames) and an oracle over hand-built typed packets: element counts 0..257 for the seven counted kinds, text lengths 0..270/500 incl. multi-byte text for the eleven text builders, both modes.",
+        "level_note": "Trusted: as C01. 'Never makes the encoder abort for a packet obtained by decoding' is checked by the oracle on generated decodes (no theorem: it depends on which values the decoder can produce for every kind; the recorded MSO case below is a finding).",
+        "technique": "Lean 4 proof (arithmetic of encode_length; size lemmas by induction over layouts; decide +kernel on the regenerated size table) + translator + differential correspondence + typed-builder oracle",
+        "translators": ["packets", "vehicle", "track"],
+        "resolve": True,
+        "trusted": [
+            "translate/packets.py (as C01)",
+            "hand-modelled, tied by the correspondence run only: Mode::encode_length (incl. its three panic sites), Codec::encode",
+            "the typed-packet builders in harness/src/c03.rs use the crate's public fields and insert() APIs",
+        ],
+        "rule": "enc.len per length and mode; pkt.rt per decoded frame; c03.build evaluations are oracle-only (typed packets the decoder cannot produce); distinct = distinct op text",
+        "assumptions": ["'refused loudly' = an error or a panic, anything but Ok with wrong bytes; for a packet obtained by decoding only an error is acceptable"],
+        "timeout": {"quick": 900, "thorough": 7200},
+    },
 }
